@@ -305,8 +305,15 @@ def refScalar (cfg : RefCfg) (k : Kind) (v : AV) (inside : Bool) : RO PV :=
     | .flt =>
       match v with
       | .flt b => .ok (.num (f32OfF64 b))
-      | .uint n => .ok (.num (f32OfNat n))
-      | .sint i => .ok (.num (f32OfInt i))
+      -- an option value: static_cast<float>(integer), one rounding. Inside a message literal protoc's
+      -- text format reads every number as a double first: where that would round twice the
+      -- reference stays silent (could not be anchored)
+      | .uint n =>
+        if inside && natToF32 n != f64ToF32 (natToF64 n) then .noclaim "integer-to-float-in-text-format-double-rounding"
+        else .ok (.num (natToF32 n))
+      | .sint i =>
+        if inside && natToF32 i.natAbs != f64ToF32 (natToF64 i.natAbs) then .noclaim "integer-to-float-in-text-format-double-rounding"
+        else .ok (.num (intToF32 i))
       | .ident s => match floatIdent cfg inside s with
         | some true => .ok (.num inf32) | some false => .ok (.num nan32) | none => .reject
       | _ => .reject
@@ -577,6 +584,10 @@ def hasBig (ws : List String) : Bool := ws.any (fun w => w.startsWith "bu:" || w
 /-- protoc's result for one `opt` op -/
 def refOp (cfg : RefCfg) (s : Schema) (op : Op) (ws : List String) : RO RefResult :=
   if hasBig ws then .noclaim "integer-literal-beyond-64-bits" else
+  -- protoc's text format wants decimal numbers for float fields; which fields of a literal are
+  -- float is not tracked here, so hex/octal spellings inside message literals are left alone
+  if ws.contains "{" && ws.any (fun w => w.startsWith "ux:" || w.startsWith "ix:" || w.startsWith "uo:" || w.startsWith "io:") then
+    .noclaim "hex-or-octal-integer-inside-message-literal" else
   let mi := s.optIdx.getD op.elem.optsIdx 0
   let c : RCx := ⟨cfg, s, op.elem.target⟩
   let isField := op.elem.fc.isSome
@@ -725,17 +736,86 @@ def isErr (r : String) : Bool := r.startsWith "err "
 
 def hasLiteral (ws : List String) : Bool := ws.contains "{"
 
+def hasRadixInt (ws : List String) : Bool :=
+  ws.any (fun w => w.startsWith "ux:" || w.startsWith "ix:" || w.startsWith "uo:" || w.startsWith "io:")
+
+/-- some decimal integer token whose float32 value depends on whether it is rounded once or via float64 -/
+def hasDoubleRoundingInt (ws : List String) : Bool :=
+  ws.any (fun w =>
+    let d := if w.startsWith "u:" || w.startsWith "i:" then (w.drop 2).toString else ""
+    match d.toNat? with
+    | some n => natToF32 n != f64ToF32 (natToF64 n)
+    | none => false)
+
 def hasRepeatedName (ws : List String) : Bool :=
   let names := ws.filter (fun w => w.startsWith "n:")
   names.any (fun n => (names.filter (· == n)).length > 1)
 
+/-- tokens that stand inside some message literal -/
+def insideTokens : List String → Nat → List String
+  | [], _ => []
+  | w :: ws, d =>
+    if w == "{" then insideTokens ws (d + 1)
+    else if w == "}" then insideTokens ws (d - 1)
+    else if d > 0 then w :: insideTokens ws d else insideTokens ws d
+
+structure MFrame where
+  entryLike : Bool := true
+  last : String := ""
+  counts : List (String × Nat) := []
+
+inductive Frame where
+  | lst
+  | msg (f : MFrame)
+
+/-- count one more entry-like child for the field named last in the nearest enclosing message;
+    `none` when that field now has two -/
+def bumpEntry : List Frame → Option (List Frame)
+  | [] => some []
+  | .lst :: rest => (bumpEntry rest).map (Frame.lst :: ·)
+  | .msg f :: rest =>
+    let c := ((f.counts.find? (·.1 == f.last)).map (·.2)).getD 0
+    if c + 1 ≥ 2 then none
+    else some (.msg { f with counts := (f.last, c + 1) :: f.counts.filter (·.1 != f.last) } :: rest)
+
+/-- some field inside a message literal is given two or more values that can be map entries (message
+    literals whose only field names are `key` / `value`, possibly none; as list elements or as
+    repeated occurrences of the field): a later entry with the same key replaces an earlier one in
+    the parsed message -/
+def twoMapEntries : List String → List Frame → Bool
+  | [], _ => false
+  | w :: ws, st =>
+    if w == "[" then twoMapEntries ws (.lst :: st)
+    else if w == "{" then twoMapEntries ws (.msg {} :: st)
+    else if w == "}" then
+      match st with
+      | .msg f :: rest =>
+        if f.entryLike then
+          match bumpEntry rest with
+          | none => true
+          | some rest' => twoMapEntries ws rest'
+        else twoMapEntries ws rest
+      | _ => twoMapEntries ws st
+    else if w == "]" then
+      match st with
+      | .lst :: rest => twoMapEntries ws rest
+      | _ => twoMapEntries ws st
+    else if w.startsWith "n:" || w.startsWith "x:" || w.startsWith "a:" then
+      match st with
+      | .msg f :: rest =>
+        twoMapEntries ws (.msg { f with entryLike := f.entryLike && (w == "n:key" || w == "n:value"), last := w } :: rest)
+      | _ => twoMapEntries ws st
+    else twoMapEntries ws st
+
 /-- why the proto form may legitimately be known to differ (labels for known findings) -/
 def protoFormCause (ws : List String) (s p : String) : String :=
-  if ws.any (fun w => w.startsWith "ni:") && hasLiteral ws && isErr p then "negative-inf-nan-in-literal"
-  else if ws.contains "i:0" && hasLiteral ws && isErr p then "neg-zero-unsigned-in-literal"
-  else if ws.contains "i:0" && hasLiteral ws && isOk p then "neg-zero-float-sign-in-literal"
+  if hasRadixInt ws && hasLiteral ws then "hex-or-octal-integer-in-literal"
+  else if ws.any (fun w => w.startsWith "ni:") && hasLiteral ws && isErr p then "negative-inf-nan-in-literal"
+  else if (insideTokens ws 0).contains "i:0" && isErr p then "neg-zero-unsigned-in-literal"
+  else if (insideTokens ws 0).contains "i:0" && isOk p then "neg-zero-float-sign-in-literal"
   else if ws.any (fun w => w.startsWith "bn:") && hasLiteral ws && isErr p then "big-negative-integer-in-literal"
   else if hasRepeatedName ws && isErr p then "field-without-presence-set-again-in-literal"
+  else if hasLiteral ws && isOk p && isOk s && hasDoubleRoundingInt ws then "integer-to-float-rounded-twice-in-literal"
   else if isOk p && isOk s then "value"
   else "other"
 
@@ -751,7 +831,7 @@ def extrasVerdict (ws : List String) (s : String) (u : String) (e : Extras) : Op
   -- (not when several map entries are written: a later entry with the same key replaces an earlier
   -- one in the parsed message, and the replaced value is never looked at in the proto form)
   else if (s == "err target" || s == "err msgset") && isOk e.p &&
-      (ws.filter (fun w => w == "n:value" || w == "n:key")).length ≤ 2 then
+      !twoMapEntries ws [] then
     some ("fails proto-form-ignores-field-usage[" ++ (if ws.any (fun w => w.startsWith "a:") then "inside-any" else "plain") ++
       "] source=" ++ s ++ " proto=" ++ e.p)
   else if isOk s && e.r != "-" && e.r != s then
